@@ -3,7 +3,8 @@
    A byte string is a list of N (each < 256).  Err = Error::InvalidData / insufficient data;
    Stuck = a panic site.  Models the REPAIRED readers (/repo fix: commits efc0a54 list capacity,
    5fdcb41 set images, 2b49a48 COMPACT-flag arrays, 56e3cfb array image validation, 24bc284 lg_arr
-   ranges) and writers (COMPACT flag on array images).  No proofs in this file. *)
+   ranges, 08d9c35 finite non-negative estimator fields, 2f7e0d8 / b0014c6 list/set coupon count consistency)
+   and writers (COMPACT flag on array images).  No proofs in this file. *)
 From DS Require Import Base.Prelude Base.FloatBits Model.Hll Model.HllUnion Base.HllSort.
 From DS Require Gen.GenHll Gen.GenCodec.
 From Coq Require Import Floats.
@@ -92,16 +93,29 @@ Fixpoint read_u32s (n : nat) (bs : list N) : outcome (list N * list N) :=
 Definition read_count_u32s (count : N) (bs : list N) : outcome (list N * list N) :=
   if N.of_nat (length bs) <? 4 * count then Err else read_u32s (N.to_nat count) bs.
 
-(* List::deserialize *)
+(* the insertion loop of List::deserialize: empty cells (updatable image) are skipped, a coupon
+   with value 0 is an error, everything else goes through List::update *)
+Fixpoint list_insert_all (vs : list N) (l : hlist) : outcome hlist :=
+  match vs with
+  | [] => Ok l
+  | v :: r =>
+      if v =? COUPON_EMPTY then list_insert_all r l
+      else if get_value v =? 0 then Err
+      else list_insert_all r (list_update l v)
+  end.
+
+(* List::deserialize: rebuilt by insertion; the number of coupons held must be the announced one *)
 Definition list_deserialize (bs : list N) (lg_arr count : N) (empty compact : bool) : outcome hlist :=
   let capacity := 2 ^ lg_arr in
   if capacity <=? count then Err
   else
     let stored := if compact then count else capacity in
-    if negb empty && (0 <? count) then
-      obind (read_count_u32s stored bs) (fun p =>
-      Ok (mkList lg_arr (fst p ++ repeat 0 (N.to_nat (capacity - stored))) count))
-    else Ok (mkList lg_arr (repeat 0 (N.to_nat capacity)) count).
+    (* an updatable image stores all its slots even when it announces no coupon: read when present *)
+    let slots_present := negb compact && (4 * capacity <=? N.of_nat (length bs)) in
+    obind (if negb empty && ((0 <? count) || slots_present) then
+             obind (read_count_u32s stored bs) (fun p => list_insert_all (fst p) (list_new lg_arr))
+           else Ok (list_new lg_arr)) (fun l =>
+    if negb (hl_len l =? count) then Err else Ok l).
 
 (* the insertion loop of HashSet::deserialize *)
 Fixpoint set_insert_all (compact : bool) (vs : list N) (st : hset) : outcome hset :=
@@ -109,6 +123,7 @@ Fixpoint set_insert_all (compact : bool) (vs : list N) (st : hset) : outcome hse
   | [] => Ok st
   | v :: r =>
       if v =? COUPON_EMPTY then (if compact then Err else set_insert_all compact r st)
+      else if get_value v =? 0 then Err
       else obind (set_update st v) (set_insert_all compact r)
   end.
 
@@ -123,11 +138,18 @@ Definition set_deserialize (bs : list N) (lg_arr : N) (compact : bool) : outcome
     let stored := if compact then count else 2 ^ lg_arr in
     obind (read_count_u32s stored (snd p)) (fun q =>
     obind (set_insert_all compact (fst q) (set_new lg_arr)) (fun st =>
-    if set_overloaded lg_arr (hs_len st) then Err else Ok st))).
+    if negb (hs_len st =? count) then Err
+    else if set_overloaded lg_arr (hs_len st) then Err else Ok st))).
 
 (* Box<[u8]> from the bytes read *)
 Fixpoint arr_of_list (i : N) (l : list N) (a : arr) : arr :=
   match l with [] => a | b :: r => arr_of_list (i + 1) r (aset a i b) end.
+
+(* check_image_field: value.is_finite() && value >= 0.0 *)
+Definition image_field_ok (f : float) : bool := PrimFloat.leb 0 f && PrimFloat.ltb f infinity.
+Definition image_fields_ok (hipb q0b q1b : list N) : bool :=
+  image_field_ok (float_of_bits (Nz (le_val hipb))) && image_field_ok (float_of_bits (Nz (le_val q0b)))
+  && image_field_ok (float_of_bits (Nz (le_val q1b))).
 
 (* the estimator restored from the preamble: set_hip_accum, set_kxq0, set_kxq1, set_out_of_order *)
 Definition est_of_image (hipb q0b q1b : list N) (ooo : bool) : hip :=
@@ -138,6 +160,8 @@ Definition est_of_image (hipb q0b q1b : list N) (ooo : bool) : hip :=
    register block of nbytes bytes -- present whether or not COMPACT is set *)
 Definition read_hll_body (bs : list N) (nbytes : N) (ooo : bool) : outcome (hip * N * list N * list N) :=
   obind (take 8 bs) (fun p1 => obind (take 8 (snd p1)) (fun p2 => obind (take 8 (snd p2)) (fun p3 =>
+  if negb (image_fields_ok (fst p1) (fst p2) (fst p3)) then Err
+  else
   obind (take 4 (snd p3)) (fun p4 => obind (take 4 (snd p4)) (fun p5 =>
   obind (take (N.to_nat nbytes) (snd p5)) (fun p6 =>
   Ok (est_of_image (fst p1) (fst p2) (fst p3) ooo, le_val (fst p5), fst p6, snd p6))))))).
@@ -187,6 +211,8 @@ Fixpoint a4_read_aux (bytes : arr) (cur_min lgk : N) (cs : list N) (m : auxmap) 
 (* Array4::deserialize *)
 Definition a4_deserialize (bs : list N) (cur_min lgk : N) (ooo : bool) : outcome (arr4 hip) :=
   obind (take 8 bs) (fun p1 => obind (take 8 (snd p1)) (fun p2 => obind (take 8 (snd p2)) (fun p3 =>
+  if negb (image_fields_ok (fst p1) (fst p2) (fst p3)) then Err
+  else
   obind (take 4 (snd p3)) (fun p4 => obind (take 4 (snd p4)) (fun p5 =>
   let aux_count := le_val (fst p5) in
   if MAX_VALUE <? cur_min then Err
